@@ -33,19 +33,25 @@ RULE = ("lim: every (parser machine, valid sentence w, limit form, k in 0..len(w
         "symbols x {peeking,chaining}; non-trivial = contains a push or chain and a next.  All cases are distinct by "
         "construction (enumerated once).")
 BOUNDS = {
-    "quick": "all ~115 machines/sentences sets; k 0..len(w)+2; 6 limit forms (ctor int / data path with parsed length "
-             "prefix / callable at offset 2 / enclosing dfa / enclosing smaller / enclosing larger), 4 for registered "
-             "service machines; tail {none,3}; chunkings {whole peekable (tail none), whole chainable, byte-wise, split at the limit}; "
-             "repeat n 0..4, j 1..3; iterator op sequences of depth <=6",
-    "thorough": "as quick plus every 2-way split of every input, extra multi-element sentences, and a third tail (a "
-                "second copy of the sentence follows; quick chunkings only); iterator op sequences of depth <=7",
+    "quick": "102 machine specs (every state class of parser.py, typed_data per type, CIP per command, the 19+6 registered "
+             "service machines, Object/Connection_Manager parsers) with 180 sentences; k 0..len(w)+2; 6 limit forms (ctor int / "
+             "data path with parsed length prefix / callable at offset 2 / enclosing dfa / enclosing smaller / enclosing "
+             "larger), 4 for registered service machines; tail {none, 3 sentinels}; chunkings {whole peekable (tail none), "
+             "whole chainable, byte-wise, 2-way split at the limit}; 52 embedded-length templates, field 0..natural+2; "
+             "repeat n 0..4 x j 1..3 x {int, data path, parsed prefix} x supplied n*j-2..n*j+3; iterator op sequences of "
+             "depth <=6 (chaining) / <=8 (peeking)",
+    "thorough": "as quick plus every 2-way split of every input, 34 extra sentences (214), and a third tail (a second "
+                "copy of the sentence follows; quick chunkings only); iterator op sequences of depth <=7 / <=9",
 }
 ASSUMPTIONS = [
     "sentences are hand-written valid messages with consistent length fields (inputs, not oracle); each is confirmed "
     "to parse completely on the tree under test, a rejection is reported as kind valid-sentence-rejected",
-    "a limit k >= len(w) is compared with the unlimited parse of input[:k] only when that reference parse is terminal",
+    "a limit k >= len(w) is compared with the unlimited parse of input[:k] (same machine shape, same cuts) only when "
+    "that reference parse is terminal; below len(w) only 'terminal => consumed <= k' and the accounting are demanded",
+    "any exception raised by the library during a limited run counts as 'it fails' (allowed by the statement)",
     "device.dialect = logix.Logix and a Logix Message Router instance 1 exist (needed by Multiple Service Packet parsers)",
     "chunks are chained whenever the machine yields a non-transition (the way enip_srv_tcp feeds received blocks)",
+    "HART and PCCC parsers are not imported (not part of the property's quantifier)",
 ]
 
 TAIL = b"\xf5\xf6\xf7"
@@ -271,7 +277,7 @@ TAGP = b"\x02\x91\x01a\x00"          # EPATH: 2 words, symbolic 'a' + pad
 
 def _types(P):
     return [
-        ("BOOL", P.BOOL, b"\x01"), ("USINT", P.USINT, b"\x01"), ("SINT", P.SINT, b"\x81"),
+        ("TYPE", P.TYPE, b"\x01"), ("BOOL", P.BOOL, b"\x01"), ("USINT", P.USINT, b"\x01"), ("SINT", P.SINT, b"\x81"),
         ("UINT", P.UINT, b"\x01\x02"), ("INT", P.INT, b"\x01\x82"), ("WORD", P.WORD, b"\x01\x02"),
         ("UDINT", P.UDINT, b"\x01\x02\x03\x04"), ("DWORD", P.DWORD, b"\x01\x02\x03\x04"),
         ("DINT", P.DINT, b"\x01\x02\x03\x84"), ("ULINT", P.ULINT, b"\x01\x02\x03\x04\x05\x06\x07\x08"),
@@ -294,9 +300,12 @@ def catalog():
     cpppo, P, device = e["cpppo"], e["parser"], e["device"]
     specs = []
 
+    covered = set()
+
     def cls(name, klass, sentences, extra=(), subpath=None, seed=None, **kw):
         def make(limit, klass=klass, kw=kw):
             return klass(limit=limit, terminal=True, **kw)
+        covered.add(klass)
         specs.append(Spec(name, "class", make, sentences, extra, subpath, seed))
 
     for name, klass, w in _types(P):
@@ -424,6 +433,11 @@ def catalog():
     inst("Connection_Manager.parser", lambda: device.Connection_Manager.parser, [(FWD_CLOSE, True), (CM[0xd4][1][0], True)])
     inst("CM.parser_service_path", lambda: device.Connection_Manager.parser_service_path, [(b"\x54\x02\x20\x06\x24\x01", True)])
 
+    # every machine class defined by parser.py must be in the catalogue (a new class must get sentences)
+    import inspect
+    for cname, klass in inspect.getmembers(P, inspect.isclass):
+        if klass.__module__ == P.__name__ and issubclass(klass, cpppo.state) and klass not in covered:
+            raise_harness("parser class %s has no catalogue entry" % cname)
     for s in specs:
         if s.name in _CAT:
             raise_harness("duplicate spec " + s.name)
